@@ -95,6 +95,20 @@ def run(ctx):
         ctx.sample({"behaviour": [(s["a"], s["r"]) for s in behs[0]], "result": results[0] if results else None})
     if len(good) < len(behs) * 0.8 or exact < len(good) * 0.3:
         raise kit.Inconclusive("replay driver unhealthy: %d behaviours, %d replayed, %d exact" % (len(behs), len(good), exact))
+    # 3b. full queues: 1024 requests written and unanswered, 1024 pending, senders blocked behind them; then a fault
+    qfile = os.path.join(ctx.work, "fullqueue.ndjson")
+    ctx.harness(["c02-fullqueue", "-out", qfile], timeout=600)
+    for r in kit.read_ndjson(qfile):
+        if r.get("err"):
+            ctx.notes.append("fullqueue: " + r["err"])
+            continue
+        ctx.case(key=["fullqueue", r["fault"]], nontrivial=r["nodeSaw"] >= 1024, n=r["sent"])
+        if r["nodeSaw"] < 1024:
+            ctx.notes.append("fullqueue/%s: the backend saw only %d requests" % (r["fault"], r["nodeSaw"]))
+        if r["unanswered"] > 0:
+            ctx.violation("lost-request/full-queues/" + r["fault"],
+                          "%d of %d requests on open connections never answered after '%s' with full backend queues (%s)" % (
+                              r["unanswered"], r["sent"], r["fault"], r.get("firstLost")), r)
     # 4. free-running pipelines with faults, boundary trace validated against PipelineObs
     pipeline.run_pipelines(ctx, faults=True, label="c02")
     ctx.cov["rule"] = ("behaviours = TLC simulation of UpstreamGen (seeded); distinct by action sequence; non-trivial = contains a "
